@@ -8,6 +8,7 @@ import VsgProofs.Lemmas.BaseLineStruct
 import VsgProofs.Lemmas.BaseWsEffects
 import VsgProofs.Lemmas.BaseBindEffects
 import VsgProofs.Lemmas.PostPhase1
+import VsgProofs.Lemmas.BaseCaseTok
 namespace Vsgm.C02
 open Vsgm
 
@@ -570,5 +571,36 @@ example :
   intro a e k n w old; exact ⟨rfl, by decide, by decide⟩
 
 end LineStruct
+
+/-! ### BEGIN ag_bcase (case family, B-full) -/
+/-! ### layer B, the case family -/
+
+/-- `token_case` (243 rules): analysis + fix never touch a comment, pragma or preprocessor line;
+    a `--` comment that ended its line still does (the kinds of all tokens are unchanged) -/
+theorem bfull_case_commentSeq {E : Base.Case.Env} {fold : Str → Str} {lc uc fc : Char → Char}
+    (T : Base.Case.CharWise E fold lc uc fc) (owner : String) (ho : owner ∈ Base.caseTokenOwners)
+    (params : Base.KV) (p : Base.Case.Params) (old new : List Tok) (a : Base.Case.Action)
+    (hok : ∀ t, old[0]? = some t → Base.Case.TokOk p t)
+    (ha : Base.Case.TokenCase.analyzeToi E p old = .ok (some a))
+    (hf : Base.fixByOwner owner params (Base.caseActionKV a) old = some (.ok new)) :
+    commentSeq new = commentSeq old ∧ new.map (·.kind) = old.map (·.kind) := by
+  rw [Base.fixByOwner_tokenCase owner ho] at hf
+  simp only [Option.some.injEq] at hf
+  have h := Base.Case.TokenCase.analyze_fix_caseOnly T p old new a hok ha hf
+  refine ⟨(h.commentSeq fold).symm, ?_⟩
+  have := congrArg (List.map Prod.snd) (Base.Case.caseOnly_classes fold h)
+  simpa [List.map_map, Function.comp_def] using this.symm
+
+/-- the fix alone, for ALL actions of all five owners: the kinds of the tokens are kept, hence a
+    `--` comment that was followed by its line break still is -/
+theorem bfix_case_commentEndsLine (owner : String) (params action : Base.KV) (old new : List Tok)
+    (ho : owner ∈ Base.caseOwners) (h : Base.fixByOwner owner params action old = some (.ok new)) :
+    new.map (·.kind) = old.map (·.kind) := by
+  rcases Base.fixByOwner_case_shape owner ho params action old new h with rfl | ⟨k, t, e, hk, rfl⟩
+  · rfl
+  · have := congrArg (List.map Prod.snd) (Base.set_val_shape old k t e hk)
+    simpa [List.map_map, Function.comp_def] using this
+
+/-! ### END ag_bcase -/
 
 end Vsgm.C02
